@@ -134,6 +134,8 @@ func (g *Gen) classRep() d128.Decimal {
 func genC15(g *Gen) {
 	g.setMode(0)
 	unary := []string{"Exp", "Exp2", "Exp10", "Expm1", "Log", "Log2", "Log10", "Log1p", "Sqrt", "Cbrt"}
+	g.powSignGrid(0.05)
+	g.powPaddedIntGrid(0.05)
 	for !g.w.full() {
 		x, y := g.classRep(), g.classRep()
 		m := g.r.Intn(6)
